@@ -125,8 +125,7 @@ def project_rule(ctx, p):
         ok = len(asg) == 1
         det = ""
         if ok:
-            br = wire.enclosing_branches(w, asg[0])
-            tests = [(norm_text(i.test).replace('"', "'"), t) for i, t in br]
+            tests = wire.path_conds(w, asg[0])
             det = str(tests)
             ok = all(t for _, t in tests) and {x for x, _ in tests} <= {f"hasattr(obj, '{attr}')", f"obj.{attr} is not None", f"getattr(obj, '{attr}', None) is not None"} and \
                 any(x.endswith("is not None") for x, _ in tests)
